@@ -68,8 +68,7 @@ def eval_moved_in(fam, outer, inner):
         if isinstance(m, lib.Raised):
             return 'moved', [Viol('C05|moved|%s|move-raises:%s' % (outer[0], m.cls), core.enc((outer, inner)), 'moved', repr(m), '')]
         t = X.add(t, v)
-        with lib.shared_points():
-            li = lib.to_lib(X.xform(inner, ID3, 1, t))
+        li = lib.to_lib(X.xform(inner, ID3, 1, t))
         for who, obj in (('receiver', lo), ('returned', m)):
             got = lib.call(lambda: li in obj)
             if got is not want:
@@ -223,8 +222,9 @@ def families(tier):
         for b in bodies:
             fams.append(BodyCands(b, pose, tier))
     for b in (('hexagon', 'tetrahedron') if tier == 'quick' else bodies):
-        fams.append(MovedCands(BodyCands(b, A.P1, tier), 3 if tier == 'quick' else 1))
-    fams.append(MovedCands(Pairs('linelike-in-plane', A.P1, planes, ll['Segment'] + ll['HalfLine'], chunk=4), 11 if tier == 'quick' else 3))
+        # (thorough: every 6th candidate of every body, under each of the four constructor forms)
+        fams.append(MovedCands(BodyCands(b, A.P1, tier), 3 if tier == 'quick' else 6))
+    fams.append(MovedCands(Pairs('linelike-in-plane', A.P1, planes, ll['Segment'] + ll['HalfLine'], chunk=4), 11 if tier == 'quick' else 9))
     # oblique bodies placed so that one vertex (hence >= 3 face planes) sits exactly at the origin
     for b in (['tetrahedron', 'cut-cube', 'hexagon'] if tier == 'quick' else ['tetrahedron', 'cut-cube', 'hexagon', 'pyramid', 'prism', 'octahedron', 'triangle']):
         K0 = A.body(b)
